@@ -1695,6 +1695,11 @@ def check_fn(run, prog, fname):
                         kind, st = out
                         try:
                             if kind == 'return':
+                                r_ = st.value
+                                if isinstance(r_, ast.Call) and isinstance(r_.func, ast.Name) and r_.func.id in fc.helpers:
+                                    r_ = fc.inline(r_)
+                                if not (isinstance(r_, ast.Call) and isinstance(r_.func, ast.Attribute) and r_.func.attr == 'to_bytes'):
+                                    raise AnalysisError(f'{fname}: the result is not produced by an int.to_bytes the analysis can see: `{ast.unparse(st.value)[:50] if st.value is not None else None}`')
                                 fc.coverage(P)
                                 fc.output(P, st)
                             elif kind == 'raise':
@@ -1793,6 +1798,56 @@ def exhaustive16(run, ctx, where):
               if not bad else f'{bad} pairs differ, first {first}', where)
 
 
+FALLBACK_LENGTHS = list(range(0, 41)) + [63, 64, 65, 127, 128, 129]
+
+
+def bounded_fallback(run, prog, fname, reason):
+    """the routine is written in a way the length-skeleton analysis cannot parse (`reason`): it is interpreted by the general interpreter on
+    symbolic byte strings of fixed lengths, over the same GF(2)-affine domain; for each length the result - an affine map of all input bits -
+    must equal the bitwise definition's.  Exact for every input of the enumerated lengths, not a proof for all lengths (rule O6)."""
+    from ..interp import Interp
+    from ..values import K, RaiseEx, Fail
+    from .. import gf2
+    spec = SPEC[fname]
+    where = prog.where(prog.func(fname, module='crypto.crc'))
+    run.rule('O6', 'routines outside the length-skeleton language: for every enumerated length the result, as a GF(2)-affine map of all input bits, equals the bitwise definition (bounded in length, exhaustive in content)', 1)
+    run.info(f'{fname}: outside the length-skeleton language ({reason[:120]}); decided by O6 for all inputs of {len(FALLBACK_LENGTHS)} lengths up to {max(FALLBACK_LENGTHS)} bytes only')
+    variants = [('bytes', {})] if fname == 'crc16' else [('bytes', {}), ('bytes', {'byteorder': K('big')}), ('bytes', {'byteorder': K('little')})]
+    variants += [('bytearray', dict(v[1])) for v in variants[:1]]
+    bad = 0
+    for n in FALLBACK_LENGTHS:
+        want = gf2.spec_fold(spec, n)
+        for kind, kw in variants:
+            if n > 40 and (kw or kind != 'bytes'):
+                continue
+            it = Interp(prog)
+            it.builtin_hook = gf2.builtin_hook(it)
+            it.NO_CRC_SUMMARY, it.FAST_CRC = True, False
+            it.MAX_STEPS = 2_000_000
+            order = kw.get('byteorder', K('big' if fname == 'crc16' else 'little')).v
+            try:
+                res = it.call(it.global_lookup(fname, 'crypto.crc'), [gf2.SymBytes(0, n, kind)], dict(kw))
+            except RaiseEx as e:
+                res = f'raises {e}'
+            except Fail as e:
+                raise AnalysisError(f'{fname}: {reason}; and the general interpreter cannot follow it on a symbolic {n}-byte input either: {e}')
+            if isinstance(res, K) and isinstance(res.v, (bytes, bytearray)):
+                res = gf2.GFBytes(Vec.const(int.from_bytes(res.v, order)), len(res.v), order)
+            ok = isinstance(res, gf2.GFBytes) and res.vec == want and res.nbytes == spec['nbytes'] and res.order == order
+            run.evaluations += 1
+            if ok:
+                run.ok('O6', f'{fname}[{n} bytes,{kind}{",byteorder=" + order if kw else ""}]')
+            else:
+                bad += 1
+                if bad <= 2:
+                    if isinstance(res, gf2.GFBytes):
+                        diff = sorted(b_ for b_ in set(res.vec.bits) | set(want.bits) if res.vec.bits.get(b_) != want.bits.get(b_))[:4]
+                        why = f'result differs from the definition in output bits {diff}' if diff else f'{res.nbytes} bytes in {res.order} order (expected {spec["nbytes"]}, {order})'
+                    else:
+                        why = str(res)[:80]
+                    run.check(False, 'O6', f'{fname}.result', f'{fname} on every {kind} input of {n} bytes{" (byteorder=" + order + ")" if kw else ""}: {why}', where)
+
+
 def check_binding(run, prog):
     """O5: what callers get under the names crc16 / crc32c is the analysed function: a decorator or wrapper around it must hand back, for every
     call in every history, the analysed function's result for the same arguments (decided on symbolic inputs, with the analysed functions summarised)"""
@@ -1838,19 +1893,25 @@ def check(run):
                        'order and loop shape match; induction on the input length gives all byte strings.')
     run.rule('O1', 'literal lookup table == table generated from the polynomial (0x1021 MSB-first / 0x82F63B78 reflected)', 0)
     run.rule('O1b', 'lookup table is GF(2)-linear', 0)
-    run.rule('O2', 'per-byte state transition == bitwise definition, as GF(2)-affine maps', 2)
+    run.rule('O2', 'per-byte state transition == bitwise definition, as GF(2)-affine maps', 0)
     run.rule('O2b', 'state stays within its width (table index in range)', 0)
-    run.rule('O3', 'initial value', 2)
-    run.rule('O3b', 'output: final xor, result width, byte order / byteorder parameter reaches to_bytes', 2)
-    run.rule('O4', 'loop visits every input byte in order without early exit', 2)
+    run.rule('O3', 'initial value', 0)
+    run.rule('O3b', 'output: final xor, result width, byte order / byteorder parameter reaches to_bytes', 0)
+    run.rule('O4', 'loop visits every input byte in order without early exit', 0)
     run.rule('O5', 'the names crc16 / crc32c, as callers see them (decorators applied), return the analysed function\'s result for the same arguments in every call history (symbolic inputs of 0..5000 bytes, both functions interleaved)', 40)
     run.trust('CPython ast parser', "the checker's GF(2) bit-vector evaluator (xor/shift/mask/linear lookup)",
               'transcription of CRC-16/XMODEM and CRC-32C bitwise definitions in sa/rules/C18.py')
     run.exhaustive = True
     ctxs = {}
     for fname in ('crc16', 'crc32c'):
-        ctxs[fname] = check_fn(run, prog, fname)
+        try:
+            ctxs[fname] = check_fn(run, prog, fname)
+        except AnalysisError as e:
+            ctxs[fname] = None
+            bounded_fallback(run, prog, fname, str(e))
+    # (the floors of O2..O4 are zero because a routine may be decided by O6 instead; a routine decided by neither ends in an analysis error above)
     check_binding(run, prog)
     if run.tier == 'thorough':
-        run.rule('O2x', 'CRC-16: exhaustive 2^24 cross-check of the oracle identity', 1)
-        exhaustive16(run, ctxs['crc16'], 'pytoniq_core/crypto/crc.py')
+        if ctxs['crc16'] is not None:
+            run.rule('O2x', 'CRC-16: exhaustive 2^24 cross-check of the oracle identity', 1)
+            exhaustive16(run, ctxs['crc16'], 'pytoniq_core/crypto/crc.py')
